@@ -15,71 +15,89 @@ def oracles_():
             comps_flatten.HistoryIndep()]
 
 
+ASSUMPTIONS = [
+    "Restrict.v keeps the mathematical integers of range / length boundaries; the C code stores int64 / uint64 in a union and "
+    "compares with the signedness of the built-in type (equal because every stored value passed the limits of its type)",
+    "DepSet.v: all modules implemented, no submodules; a module is reduced to its imports and six content flags (features, "
+    "data nodes, groupings, augments, deviations, typedefs) from which LYS_IS_SINGLE_DEP_SET / lys_has_dep_mods are computed",
+    "that import chains through lys_has_dep_mods modules are ALL the ways one module's compiled tree depends on another is "
+    "not proved; it is what the oracle history-indep tests",
+]
+
 MANIFEST = {
-    "text": "PROVED (Coq) are the two kernels of the property. (1) if-feature: C11_iffeature_correct - every string of the "
-            "RFC 7950 if-feature grammar (any parenthesisation and white space) with parse tree e whose features resolve "
-            "compiles, and the compiled prefix code evaluates under every feature assignment to the denotation of e (and/or/"
-            "not); C11_iffeature_eval_prefix_correct for the evaluator alone. (2) range / length restrictions along typedef "
-            "chains (Properties_C11_restrict.v, model of the code as of /repo 72878af + b6c3725): C11_range_compile_iff - on every "
-            "text of the range-arg grammar the compiler accepts exactly the legal restrictions (keywords resolved against the "
-            "base, numbers within the built-in type, parts ascending and disjoint, every part inside a part of the base) and "
-            "returns the parts written; C11_range_chain_intersection - the effective restriction of the last typedef of a chain "
-            "accepts exactly the values every restriction of the chain accepts. For ARBITRARY argument texts: "
-            "C11_range_rejects_widening (whatever compiles under a restricted base lies inside it), "
-            "C11_range_chain_never_widens, C11_range_compiled_ascending, C11_range_validate_agrees (lyplg_type_validate_range "
-            "decides membership), C11_range_no_overread (the base check never indexes beyond the parts array), "
-            "C11_range_total, C11_range_parts_in_type; C11_range_inherits_all_parts / C11_range_unrestricted_level_neutral (a "
-            "typedef that restates no range / length - or only adds a pattern - hands down ALL parts of the inherited "
-            "restriction; regression Example against a first-part-only copy). The model follows the code and carries its remaining leniencies with "
-            "refutation theorems and replayed witnesses: 1..9..3 / 127 | max / decimal64 - / +5 are accepted, 3..7 under "
-            "1..5 | 6..9 / 0..min / 1.50 are rejected. The former defects (1 50 widened its base; 1|| read beyond the parts "
-            "array) are fixed and kept as regression Examples. "
-            "(3) dependency sets (Properties_C11_depset.v): C11_depset_exact - the set computed for a module is exactly the "
-            "modules with data nodes or features connected to it by import chains (either direction) through modules "
-            "lys_has_dep_mods lets the traversal pass; C11_depset_total - the model's fuel always suffices. "
-            "Tie: extracted models vs lys_compile_iffeature / lysc_iffeature_value and vs lys_compile_type_range called "
-            "directly and through lys_parse_mem on generated typedef chains (depth 1-4, int8..uint64, decimal64 fd 1/2/9/18, "
-            "string / binary length) with lyd_value_validate probes at every boundary +-1 (T2). "
-            "SEARCH ONLY (testing, no proof): the equivalence of structured and flattened module sets and load-order "
-            "independence - oracle flatten-equiv (generated typedef chains with defaults / units, groupings with nested uses, "
-            "refine and uses-augment, own and foreign augments incl. choice cases and uses'd subtrees, a submodule, "
-            "deviations, if-feature expressions, when; hand-flattened twin written by a Python flattener from RFC 7950; all 8 "
-            "feature assignments: equal LYS_OUT_YANG_COMPILED prints, schema-node sets equal to the Python if-feature "
-            "denotation, equal verdicts on valid and single-mutation instance documents) and oracle load-order (all load "
-            "orders, implemented-later, explicit compile, parse from text); oracle history-indep (module families with "
-            "dependency chains THROUGH modules without data nodes - augment-only, grouping-only, identity-only, feature-only, "
-            "deviation-only, typedef-only - and if-feature / when / leafref / identityref / default references crossing "
-            "modules: module list, compiled prints of every module, schema-node sets, lys_find_path probes and data verdicts "
-            "must be the same after every history that ends in the same implemented set and feature states: load orders, "
-            "features at load time or changed later by lys_set_implemented (on, off, on-then-off), explicit compile with one "
-            "or several ly_ctx_compile(), failed operations in between); oracle restrict-rfc compares the library with an "
-            "independent Python reading of RFC 7950 9.2.4.",
-    "note": "Modelled in Coq: lys_compile_iffeature, lysc_iffeature_value; lys_compile_type_range, range_part_minmax, "
-            "range_part_check_value_syntax, range_part_check_ascendancy, the hand-down of the base restriction in "
-            "lys_compile_type, lyplg_type_validate_range (ly_parse_int / ly_parse_uint from slice types). NOT modelled in Coq: "
-            "the expansion of typedef / grouping / uses / refine / augment / submodule / deviation (lys_compile_node*, "
-            "schema_compile_amend.c), pattern restrictions, enum / bits restrictions, load order - these are covered by "
-            "search only (comps_flatten.py). History independence as a whole is oracle-level (history-indep); its kernel, the "
-            "dependency set of lys_unres_dep_sets_create (which modules are recompiled when a module changes), is modelled in "
-            "DepSet.v (all modules implemented, no submodules) and tied by the component depset (families of 2-7 modules with "
-            "random imports / features / data / groupings / typedefs / augments / deviations, exact set and order): "
-            "C11_depset_exact proves that the set computed for a module is exactly the set of modules with data nodes or features "
-            "connected to it by import chains (either direction) through modules lys_has_dep_mods lets the traversal pass "
-            "(no fuel hypothesis: C11_depset_total). That these "
-            "chains are ALL the ways a compiled tree can depend on another module is the modelling assumption behind "
-            "lys_has_dep_mods (checked by history-indep, which found the typedef-only / deviation-only gaps fixed by 64300ce). "
-            "Statements living in submodules resolve prefixes in the submodule's own imports: flatten-equiv moves augments of "
-            "fb / deviations of fd into submodules that import fa under a prefix the module does not define or uses for "
-            "another module, history-indep has the clash variant for if-feature / when / leafref / identityref / typedef "
-            "references. In history-indep a "
-            "module whose default refers to an identity is loaded after the module of the identity (libyang takes identities "
-            "of implemented modules only, by design), and with LY_CTX_EXPLICIT_COMPILE a failing call only comes when nothing "
-            "is pending (the revert of pending work is listed under C09: ctx-explicit-revert-pending). In the compiled prints compared by flatten-equiv the when statements are removed "
-            "(the flattened twin re-roots the XPath; its meaning is compared on instance documents) and the order among "
-            "children added by the augments of nested uses follows libyang (RFC 7950 does not fix it). The three defects the "
-            "search found (nested refine: inner won; leaf-list min-elements kept a typedef default; NULL dereference in "
-            "lys_compile_type on a chain of three typedefs) are fixed in /repo (9a6fde6, 7484206, bf5769e): nothing is "
-            "attributed or avoided any more, a reappearance is a violation.",
-    "technique": "Coq proof over hand-written models + differential correspondence (extracted OCaml vs C) for if-feature and "
-                 "restrictions; generated-module differential testing (structured vs hand-flattened, load orders) for the rest",
+    "text": "PROVED in Coq over hand-written models of the C code (three kernels; everything else of the property is search). "
+            "(1) if-feature (Properties_C11_iff.v; model of lys_compile_iffeature / lysc_iffeature_value as of /repo 299b7de, "
+            "6f66310, 685c1af): C11_iffeature_correct - for every string r of the RFC 7950 if-feature grammar (any "
+            "parenthesisation, separators any run of isspace characters) with parse tree e, whose feature names resolve and "
+            "whose length satisfies the bound len_ok, compilation succeeds and the compiled prefix code evaluates under every "
+            "feature assignment to the and/or/not denotation of e, without leaving the arrays; "
+            "C11_iffeature_eval_prefix_correct for the evaluator alone; C11_render_full_in_grammar / "
+            "C11_render_min_in_grammar (the generators' renderings are in the grammar); Examples C11_former_witness "
+            "(regression, not (not a)), C11_lenient_not_placement (the ungrammatical 'a not and b' compiles like 'not a and b': "
+            "a leniency, stated, not a violation). "
+            "(2) range / length restrictions along typedef chains (Properties_C11_restrict.v; model as of /repo 72878af, "
+            "b6c3725). On texts of the range-arg grammar (RFC ABNF with any isspace around tokens, + sign and leading zeros "
+            "allowed), for an ascending base, excluding the shape 'x..M | max': C11_range_compile_iff - compilation succeeds "
+            "exactly for the legal restrictions (min only first / max only last boundary, numbers within the built-in type, "
+            "parts ascending and disjoint, every part inside ONE part of the base) and returns the parts written; "
+            "C11_range_compile_iff_subset - the same with value-set inclusion when the base parts do not touch; "
+            "C11_range_chain_intersection - the effective restriction of the last typedef accepts exactly the values every "
+            "restriction of the chain accepts. For ARBITRARY argument texts: C11_range_rejects_widening (whatever compiles "
+            "under a restricted base lies inside it), C11_range_chain_never_widens, C11_range_compiled_ascending (parts may "
+            "touch), C11_range_validate_agrees (lyplg_type_validate_range decides membership in the compiled parts), "
+            "C11_range_no_overread (the base check never indexes beyond the parts array), C11_range_total (model fuel), "
+            "C11_range_parts_in_type (given a base within the type), C11_range_inherits_all_parts / "
+            "C11_range_unrestricted_level_neutral (a typedef that restates no range / length - in the model also one that only "
+            "adds a pattern - hands down ALL inherited parts). The model carries the code's remaining departures from RFC 7950 "
+            "with C11_range_rejects_illformed_refuted (1..9..3, 127 | max, decimal64 '-', +5, 05, -0, -.5 are accepted) and "
+            "C11_range_strictness_refuted (3..7 under 1..5 | 6..9, 0..min, 1.50 are rejected), each a listed known finding "
+            "with a replayed witness; Examples C11_range_former_witnesses (1 50, 5 1, 1||: fixed defects, now rejected) and "
+            "C11_range_first_part_copy_refuted (regression against a first-part-only copy of an inherited length). "
+            "(3) dependency sets (Properties_C11_depset.v; lys_unres_dep_sets_create with a start module, as of /repo 64300ce; "
+            "all modules implemented, no submodules): C11_depset_exact - the set computed for a module with data nodes or "
+            "features is exactly the set of such modules connected to it by import chains, in either direction, through "
+            "modules the traversal enters (lys_has_dep_mods); C11_depset_total - the model's fuel always suffices. "
+            "Each file ends with an Example that the hypotheses are satisfiable (C11_hypotheses_satisfiable, "
+            "C11_range_hypotheses_satisfiable, C11_depset_examples). "
+            "Tie (T2, extracted OCaml models vs the C functions on the same generated inputs): lys_compile_iffeature / "
+            "lysc_iffeature_value (exhaustive small ASTs x renderings x assignments); lys_compile_type_range called directly "
+            "with a hand-made base, and through lys_parse_mem on typedef chains of depth 1-4 (int8..uint64, decimal64, string "
+            "/ binary length, levels without restriction or with only a pattern) with lyd_value_validate probes around every "
+            "boundary; lys_unres_dep_sets_create on generated families of 2-7 modules (exact set and order). "
+            "SEARCH ONLY (testing, no proof): flatten-equiv - a generated structured module set (typedef chains with defaults "
+            "/ units, groupings with uses nested up to three levels, refine incl. the same target at several levels, "
+            "uses-augment, own and foreign augments incl. choice cases, submodules with their own import prefixes, deviations, "
+            "if-feature expressions, when) against its hand-flattened twin written by a Python flattener from RFC 7950, under "
+            "all 8 feature assignments: equal LYS_OUT_YANG_COMPILED prints, schema-node sets equal to the Python if-feature "
+            "denotation, equal verdicts on valid and single-mutation instance documents; load-order - all load orders, "
+            "implemented later, explicit compile, parse from text; history-indep - module families with dependency chains "
+            "through modules without data nodes and cross-module if-feature / when / leafref / identityref / default / typedef "
+            "references: module list, compiled prints, schema-node sets, lys_find_path probes and data verdicts equal after "
+            "every history ending in the same implemented set and feature states (load orders, features at load time or "
+            "changed later by lys_set_implemented, one or several ly_ctx_compile(), failed operations in between); "
+            "restrict-rfc - the library against an independent Python reading of RFC 7950 9.2.4 / 9.4.4.",
+    "note": "Modelled (transcribed branch by branch, tied by T2, not verified against the C source): lys_compile_iffeature, "
+            "lysc_iffeature_value; lys_compile_type_range, range_part_minmax, range_part_check_value_syntax, "
+            "range_part_check_ascendancy, the hand-down of the compiled restriction in lys_compile_type (a typedef without own "
+            "range / length, or with only a pattern, is one 'no restriction' level: lysc_range_dup is covered by T2 only), "
+            "lyplg_type_validate_range, ly_parse_int / ly_parse_uint (slice types); lys_unres_dep_sets_create(_mod_r), "
+            "LYS_IS_SINGLE_DEP_SET, lys_has_dep_mods for implemented modules without submodules. NOT modelled, covered by the "
+            "oracles only: expansion of typedef / grouping / uses / refine / augment / submodule / deviation (lys_compile_node*, "
+            "schema_compile_amend.c), prefix scopes of submodules, load order, feature changes, recompilation. Outside "
+            "everything: pattern and enum / bits restrictions as such, leafref / must / when XPath compilation beyond the few "
+            "fixed shapes the families use, extensions, RPCs / notifications, YIN. Oracle conventions: in the compiled prints "
+            "compared by flatten-equiv the when statements are removed (the twin re-roots the XPath; its meaning is compared on "
+            "instance documents) and runs of siblings added by uses-augments are sorted (libyang's order among them depends on "
+            "pending augments; RFC 7950 does not fix it); in history-indep a module whose default names an identity is loaded "
+            "after the identity's module (libyang takes identities of implemented modules only, by design) and with "
+            "LY_CTX_EXPLICIT_COMPILE a failing call only comes when nothing is pending (C09 finding "
+            "ctx-explicit-revert-pending). Known (listed, replayed) for C11: the seven range-syntax departures "
+            "range-repeated-dots, range-max-touching, range-dec64-sign-only, range-lenient-number, range-touching-base, "
+            "range-kw-position, range-dec64-trailing-zeros. Fixed in /repo, a reappearance is a plain violation: "
+            "iff-not-paren 299b7de, range-juxtaposed-parts 72878af, range-double-bar-overread b6c3725, "
+            "refine-nested-inner-wins 9a6fde6, leaflist-min-typedef-default 7484206, typedef-chain-inherit-null bf5769e, "
+            "depset-skips-typedef-deviation-modules 64300ce.",
+    "technique": "Coq proofs over hand-written models + differential correspondence (extracted OCaml vs C) for if-feature, "
+                 "range / length restrictions and dependency sets; generated-module differential testing (structured vs "
+                 "hand-flattened, load orders, histories) for the rest",
 }
